@@ -285,6 +285,7 @@ func runWorker(args []string) int {
 		emit(&Line{Ev: "scenario", Idx: w.only, Scenario: sc})
 		return 0
 	}
+	echo := map[int]uint64{}
 	switch w.part {
 	case "sweep":
 		jobs := def.SweepJobs(w.seed, w.tier == "quick")
@@ -359,6 +360,34 @@ func runWorker(args []string) int {
 			out := props.Execute(prep, def.hooks(), nil, false)
 			sum.Families[sc.Note]++
 			handle(idx, sc, prep, out)
+			if def.Echo && w.only < 0 && !w.race {
+				// echo run: every 16th scenario is executed again after this worker has
+				// run 40 other scenarios. What it returns must not depend on what the
+				// process did in between (state outside the instance).
+				const lag = 40
+				if (idx/w.stride)%16 == 0 {
+					echo[idx] = out.ResultHash
+				}
+				old := idx - lag*w.stride
+				if h, ok := echo[old]; ok {
+					delete(echo, old)
+					sc2 := def.Gen(w.seed, old)
+					prep2 := props.Prepare(sc2, true)
+					out2 := props.Execute(prep2, def.hooks(), nil, false)
+					sum.Probes["echo_runs"]++
+					if out2.ResultHash != h && len(out2.Violations) == 0 {
+						v := &props.Violation{Prop: w.prop, Kind: "history", Task: -1, OpIdx: -1, OpKind: "run",
+							Msg: fmt.Sprintf("scenario %d returned different results when executed again after %d other scenarios in the same process: results depend on state outside the instance", old, lag)}
+						out2.Violations = append(out2.Violations, v)
+						sum.Violations++
+						rf := &props.ReplayFile{Property: w.prop, Engine: "echo", Violation: v, Scenario: sc2, Echo: &props.EchoCase{Seed: w.seed, From: old, To: idx, Stride: w.stride}}
+						path := fmt.Sprintf("%s/%s-%d-echo-%d.json", w.outDir, w.prop, w.seed, old)
+						if err := rf.Write(path); err == nil && sum.Violations <= maxReportsPerWorker {
+							emit(&Line{Ev: "viol", Idx: old, Part: w.part, Viol: v, Replay: path})
+						}
+					}
+				}
+			}
 			if w.only >= 0 {
 				break
 			}
